@@ -12,6 +12,7 @@ inductive Ev where
   | localOpen (res : Option Int)            -- NewStream: `some num` or blocked
   | peerMax (v : Int)                       -- the peer sent MAX_STREAMS v
   | closed                                  -- a peer-initiated stream was completely closed (both directions done)
+  | localClosed                             -- a LOCALLY initiated stream was completely closed: must not count
   deriving Repr
 
 structure St where
@@ -30,6 +31,7 @@ def check (st : St) : Ev → Bool
   | .localOpen none => decide (st.lcount ≥ st.grant)
   | .peerMax _ => true
   | .closed => true
+  | .localClosed => true
 
 def next (st : St) : Ev → St
   | .maxStreams v => { st with adv := v }
